@@ -157,6 +157,7 @@ type Sim struct {
 	broken      map[string]bool
 	grants      map[string]bool // "<chain>|<granter acct>|<grantee acct>" -> live MsgTransfer grant
 	observeOnly bool
+	preferV2    bool // worlds with a v2 client pair on every link send half of their traffic over those
 	// accounts whose receives are made to fail
 	Routes []*TPkt // root packets that carried a forward memo
 }
@@ -235,6 +236,7 @@ func NewSim(c *kit.Check, r *kit.Rng, topo Topology) *Sim {
 			s.Lanes = append(s.Lanes, &Lane{L: l, Kind: "v2", Ends: [2]End{{lk[0], l.V2.EndpointA.ClientID}, {lk[1], l.V2.EndpointB.ClientID}}})
 		}
 	}
+	s.preferV2 = topo.Desync
 	n := len(s.Ch)
 	s.paths = make([]map[string]string, n)
 	s.model = make([]map[string]map[string]sdkmath.Int, n)
